@@ -52,6 +52,39 @@ theorem gen_constants :
 theorem gen_flags :
     compFlags = [true, false, true, false] ∧ timedFlags = [true, false] ∧ defaultFlags = Skel.defaultFlags := by decide
 
+/-- source text of the declarations and functions that fix the 16-bit truncation of versions (`uint16_t` return / parameter
+types of version(), push/pop_version_for_index, wait_until_reach_expected_version, set_version) and the `==` of the wait fast path -/
+theorem gen_src_truncation :
+    src_decl_slotfutex = Skel.Pinned.decl_slotfutex ∧
+    src_decl_version_for_index = Skel.Pinned.decl_version_for_index ∧
+    src_version = Skel.Pinned.version ∧
+    src_wait = Skel.Pinned.wait ∧
+    src_set_version = Skel.Pinned.set_version ∧
+    src_push_version_for_index = Skel.Pinned.push_version_for_index ∧
+    src_pop_version_for_index = Skel.Pinned.pop_version_for_index :=
+  ⟨rfl, rfl, rfl, rfl, rfl, rfl, rfl⟩
+/-- source text of the public operations (ticket dispensing, ring-end split, early returns of try_*_n, template flags at the
+call sites) -/
+theorem gen_src_api :
+    src_push = Skel.Pinned.push ∧
+    src_pop = Skel.Pinned.pop ∧
+    src_push_n = Skel.Pinned.push_n ∧
+    src_pop_n = Skel.Pinned.pop_n ∧
+    src_try_push_n = Skel.Pinned.try_push_n ∧
+    src_try_pop_n = Skel.Pinned.try_pop_n ∧
+    src_cpush_n = Skel.Pinned.cpush_n ∧
+    src_cpop_n = Skel.Pinned.cpop_n ∧
+    src_timed_pop_n = Skel.Pinned.timed_pop_n :=
+  ⟨rfl, rfl, rfl, rfl, rfl, rfl, rfl, rfl, rfl⟩
+/-- source text of deal / try_deal / deal_n_continuously (x2) / try_deal_n_continuously -/
+theorem gen_src_deal :
+    src_deal = Skel.Pinned.deal ∧
+    src_try_deal = Skel.Pinned.try_deal ∧
+    src_deal_n = Skel.Pinned.deal_n ∧
+    src_deal_n_comp = Skel.Pinned.deal_n_comp ∧
+    src_try_deal_n = Skel.Pinned.try_deal_n :=
+  ⟨rfl, rfl, rfl, rfl, rfl⟩
+
 /-! ### the invariant -/
 /-- **bq_inv.**  In every reachable state: tickets below the dispensers are each held by at most one
 thread (`uniq`, `heldLt`); a slot's version says exactly which deals on it are complete (`doneGt`,
@@ -115,13 +148,25 @@ theorem bq_ticket_ge_start (c : Cfg) (y : Sys) (h : ReachF c y) (t : Nat) (sd : 
 /-- **bq_ver16_faithful** (total-traffic form).  While every slot version and every version a thread is
 about to compare against is below 2^16 (fewer than 2^15 rounds of the ring have been dealt), comparing the
 16-bit truncations is comparing the untruncated versions, i.e. the hypothesis of `StepF` holds.
-The sharper window form — `OutstandingBound`: all simultaneously live tickets and all indices still held in
-locals of in-flight try_ calls lie within 2^15·capacity of each other — is *not* proved here and is what
-`StepF` assumes explicitly; it cannot be dropped: with 2^15·capacity tickets outstanding the truncated
-version of a slot repeats and a stalled thread would be admitted one lap early. -/
+The window form is `bq_ver16_faithful_window` below.  The hypothesis cannot be dropped: with 2^15·capacity tickets
+outstanding the truncated version of a slot repeats and a stalled thread would be admitted one lap early. -/
 theorem bq_ver16_faithful (c : Cfg) (s : State) (hv : ∀ sl, s.ver sl < 65536)
     (hE : ∀ t sl E, (s.pc t).cmp c = some (sl, E) → E < 65536) : ∀ t, Faithful c s t :=
   faithful_of_small c s hv hE
+
+/-- **bq_ver16_faithful, window form.**  If for every comparison a thread is about to make the untruncated slot version and
+the untruncated expected version are less than 2^16 versions — 2^15 rounds of the ring — apart (`OutstandingBound`: everything
+simultaneously live lies within 2^15·capacity tickets), then comparing the 16-bit truncations is exact, including when the stored
+16-bit version wraps between the two (65534 → 0).  This is exactly what the code's comment "同时重叠出现的version规模不会太大" assumes. -/
+theorem bq_ver16_faithful_window (c : Cfg) (s : State)
+    (hwin : ∀ t sl E, (s.pc t).cmp c = some (sl, E) → s.ver sl < E + 65536 ∧ E < s.ver sl + 65536) : ∀ t, Faithful c s t :=
+  faithful_of_window c s hwin
+
+/-- for the wait of a ticket holder on its own ticket the bound is one-sided (the slot is never ahead of a held ticket) -/
+theorem bq_ver16_faithful_holder (c : Cfg) (y : Sys) (h : ReachF c y) (t : Nat) (sd : Side) (i : Nat)
+    (hh : (y.s.pc t).held sd i) (hwin : expVer c sd i < y.s.ver (slotOf c i) + 65536) :
+    (v16 (y.s.ver (slotOf c i)) = v16 (expVer c sd i) ↔ y.s.ver (slotOf c i) = expVer c sd i) :=
+  faithful_holder (inv_reach h) t sd i hh hwin
 
 /-- the low half of the futex word the code loads is the truncation of the model's untruncated version -/
 theorem bq_word_low16 (s : State) (j : Nat) : v16 (s.word j) = v16 (s.ver j) := v16_word s j
